@@ -62,65 +62,82 @@ def run(ctx, rep):
         funcs = [c.methods.get("_set_coeffs"), c.methods.get("num_outcomes"), c.methods.get("_get_target_index")]
         if short in ("StandardQpt", "StandardQmpt"):
             funcs.append(ix.func(T + "standard_qpt.calc_c_qpt"))
-        reads = []
+        from ..astutil import deep_inline
+
+        def schedule_read(f, e):
+            """(position, text) when e is <schedule>[POS][1] - the index component of the item at a fixed position of a schedule -
+            with POS a literal or a named constant; None otherwise"""
+            e = deep_inline(f, e)
+            if not (isinstance(e, ast.Subscript) and is_num(e.slice, 1) and isinstance(e.value, ast.Subscript)):
+                return None
+            inner = e.value
+            base = unparse(inner.value)
+            if not (base == "schedule" or "schedules[" in base or base.endswith("schedule")):
+                return None
+            pos = const(inner.slice)
+            if isinstance(pos, int) and not isinstance(pos, bool):
+                return pos, unparse(e)
+            return None
+        n_reads = 0
         for f in [x for x in funcs if x is not None]:
-            defs = {unparse(s.targets[0]): s.value for s in own_nodes(f.node) if isinstance(s, ast.Assign) and isinstance(s.targets[0], ast.Name)}
-            for n in own_nodes(f.node):
-                if isinstance(n, ast.Assign) and isinstance(n.targets[0], ast.Name) and isinstance(n.value, ast.Subscript) and is_num(n.value.slice, 1) \
-                        and isinstance(n.value.value, ast.Subscript):
-                    inner = n.value.value
-                    base = unparse(inner.value)
-                    if not (base == "schedule" or base.endswith("schedules[schedule_index]")):
+            loop_counters = set()
+            for lp in own_nodes(f.node):
+                if isinstance(lp, ast.For) and isinstance(lp.iter, ast.Call) and dotted(lp.iter.func) == "enumerate" and isinstance(lp.target, ast.Tuple) \
+                        and "schedules" in unparse(lp.iter) and isinstance(lp.target.elts[0], ast.Name):
+                    loop_counters.add(lp.target.elts[0].id)
+                if isinstance(lp, ast.For) and isinstance(lp.target, ast.Name) and "range(" in unparse(lp.iter) and "schedules" in unparse(lp.iter):
+                    loop_counters.add(lp.target.id)
+            # the function's own result, when it is a schedule read (the _get_target_index accessor)
+            if f.name == "_get_target_index":
+                for r in returns(f):
+                    sr = schedule_read(f, r.value) if r.value is not None else None
+                    con = "%s: %s returns %s" % (short, f.name, unparse(r.value) if r.value is not None else None)
+                    if sr is None:
+                        rep.undecided("M3", f, con, "the target index is not read from a fixed position of the schedule")
                         continue
-                    pos = const(inner.slice)
-                    if not isinstance(pos, int) and isinstance(inner.slice, ast.Name) and inner.slice.id in defs:
-                        pos = const(defs[inner.slice.id])
-                    role = None
-                    nm = n.targets[0].id
-                    for k in ("state", "povm", "gate", "mprocess"):
-                        if nm.startswith(k):
-                            role = k
-                    if nm == "target_index":
-                        role = shape[tpos]
-                    reads.append((f, n, pos, role))
-        # the object lists are indexed by the index read for their own kind
-        role_of = {}
-        for f, n, pos, role in reads:
-            if role is not None:
-                role_of.setdefault(f.qualname, {})[n.targets[0].id] = role
-        for f in [x for x in funcs if x is not None]:
-            for n in own_nodes(f.node):
-                if isinstance(n, ast.Subscript) and isinstance(n.ctx, ast.Load):
-                    base = unparse(n.value)
-                    kind = next((k for k in ("state", "povm", "gate", "mprocess") if base == k + "s" or base.endswith("." + k + "s") or base.endswith("._" + k + "s")), None)
-                    if kind is None or base.endswith("schedules"):
-                        continue
-                    con = "%s: %s" % (short, unparse(n))
-                    if isinstance(n.slice, ast.Constant) and n.slice.value == 0 and "_set_qoperations" in base:
-                        continue            # the template object of the unknown
-                    if not isinstance(n.slice, ast.Name):
-                        rep.info("M3", f, con, "list indexed by a non-name expression")
-                        continue
-                    r = role_of.get(f.qualname, {}).get(n.slice.id)
-                    if r == kind:
-                        rep.holds("M3", f, con, "%s list indexed by the %s index the schedule names" % (kind, kind), node=n)
-                    elif r is not None:
-                        rep.violation("M3", f, con, "the %s list is indexed by `%s`, which is the schedule's %s index" % (kind, n.slice.id, r), node=n)
+                    n_reads += 1
+                    p_ = sr[0] if sr[0] >= 0 else len(shape) + sr[0]
+                    if 0 <= p_ < len(shape) and p_ == (tpos if tpos >= 0 else len(shape) + tpos):
+                        rep.holds("M3", f, con, "position %d is pinned to '%s' (the unknown) by the class's validator" % (p_, shape[p_]), node=r)
                     else:
-                        rep.violation("M3", f, con, "the %s list is indexed by `%s`, which is not an index read from the schedule (the position of the "
-                                                    "schedule in the list is not the number of the %s it uses: any permuted, partial or repeating schedule "
-                                                    "list picks the wrong tester)" % (kind, n.slice.id, kind), node=n)
-        if not reads:
+                        rep.violation("M3", f, con, "reads the unknown's index from position %s; %s's schedules have the unknown ('%s') at position %s"
+                                      % (sr[0], short, shape[tpos], tpos), node=r)
+            for n in own_nodes(f.node):
+                if not (isinstance(n, ast.Subscript) and isinstance(n.ctx, ast.Load)):
+                    continue
+                base = unparse(n.value)
+                kind = next((k for k in ("state", "povm", "gate", "mprocess") if base == k + "s" or base.endswith("." + k + "s") or base.endswith("._" + k + "s")), None)
+                if kind is None or base.endswith("schedules"):
+                    continue
+                con = "%s: %s" % (short, unparse(n))
+                if isinstance(n.slice, ast.Constant) and n.slice.value == 0 and "_set_qoperations" in base:
+                    continue            # the template object of the unknown
+                sr = schedule_read(f, n.slice)
+                if sr is not None:
+                    n_reads += 1
+                    p_ = sr[0] if sr[0] >= 0 else len(shape) + sr[0]
+                    if not (0 <= p_ < len(shape)):
+                        rep.undecided("M3", f, con, "position %s is outside the schedule shape %s" % (sr[0], shape))
+                    elif shape[p_] == kind:
+                        rep.holds("M3", f, con, "%s list indexed by the index of the schedule item at position %d, which the validator pins to '%s'"
+                                  % (kind, p_, kind), node=n)
+                    else:
+                        rep.violation("M3", f, con, "the %s list is indexed by the index of the schedule item at position %s, which %s's schedules pin to '%s'"
+                                      % (kind, sr[0], short, shape[p_]), node=n)
+                    continue
+                idx = deep_inline(f, n.slice)
+                if isinstance(idx, ast.Call) and isinstance(idx.func, ast.Attribute) and idx.func.attr == "_get_target_index":
+                    n_reads += 1
+                    rep.check(kind == shape[tpos], "M3", f, con, "%s list indexed by the target index" % kind,
+                              "the %s list is indexed by the target index, but the unknown of %s is the %s" % (kind, short, shape[tpos]), node=n)
+                elif isinstance(n.slice, ast.Name) and n.slice.id in loop_counters or (isinstance(idx, ast.Name) and idx.id in loop_counters):
+                    rep.violation("M3", f, con, "the %s list is indexed by `%s`, which is not an index read from the schedule (the position of the "
+                                                "schedule in the list is not the number of the %s it uses: any permuted, partial or repeating schedule "
+                                                "list picks the wrong tester)" % (kind, unparse(n.slice), kind), node=n)
+                else:
+                    rep.info("M3", f, con, "list indexed by %s (not a schedule read)" % unparse(idx)[:60])
+        if not n_reads:
             rep.undecided("M3", cq, "positions", "no schedule position reads found")
-        for f, n, pos, role in reads:
-            p = pos if pos is None or pos >= 0 else len(shape) + pos
-            con = "%s: %s" % (short, unparse(n))
-            if p is None or role is None or p >= len(shape):
-                rep.undecided("M3", f, con, "position %s / role %s not resolved" % (pos, role))
-            elif shape[p] == role:
-                rep.holds("M3", f, con, "position %d is pinned to '%s' by the class's validator" % (p, role), node=n)
-            else:
-                rep.violation("M3", f, con, "reads the %s from position %s, which %s's schedules pin to '%s'" % (role, pos, short, shape[p]), node=n)
     # ---- M4 / M5
     _m45(ctx, rep)
 
